@@ -11,11 +11,12 @@ W = os.path.join(lib.WORK, "core")
 
 PLANS = {
     # property -> tier -> list of (cfg, render modes)
-    "C01": {"quick": [("wt9", "full-unique"), ("f7", "full-unique")],
+    "C01": {"quick": [("wt9", "full-unique"), ("f7", "full-unique"), ("sc1", "full-unique"), ("sc2", "full-unique")],
             "thorough": [("wt10", "full-unique"), ("wt10b", "full-unique,lean-shadow"), ("f7", "full-unique"),
                          ("f7b", "full-unique")]},
-    "C02": {"quick": [("wt9", "full-unique,lean-shadow")],
-            "thorough": [("wt10", "full-unique,lean-shadow,full-random"), ("wt10b", "full-unique,lean-random")]},
+    "C02": {"quick": [("wt9", "full-unique,lean-shadow"), ("sc1", "full-unique,lean-shadow"), ("sc2", "full-unique,lean-shadow")],
+            "thorough": [("wt10", "full-unique,lean-shadow,full-random"), ("wt10b", "full-unique,lean-random"),
+                         ("wt9v", "full-unique,lean-shadow"), ("sc1", "full-unique,lean-random"), ("sc2", "full-unique,lean-random")]},
     "C03": {"quick": [("f7", "full-unique"), ("wt9", "lean-shadow")],
             "thorough": [("f7", "full-unique"), ("f7b", "full-unique"), ("wt10", "lean-unique,full-shadow"),
                          ("wt10b", "lean-shadow")]},
@@ -27,6 +28,10 @@ EXPECTED_TOKENS = {"var", "int", "unit", "str", "thunk", "ret", "lam", "force", 
 
 def expected_tokens(cfg):
     """Vacuity guard: the token kinds a configuration must reach within its bound."""
+    if cfg.startswith("sc"):
+        return {"vlam", "vapp", "matchP", "pair", "let"} if cfg == "sc1" else {"thunk", "lam", "do", "force", "matchP", "app"}
+    if cfg.endswith("v"):
+        return {"vlam", "vapp", "let", "exit"}
     exp = set(EXPECTED_TOKENS)
     if not cfg.endswith("b"):          # bind types without String / P
         exp -= {"str", "i2s", "sapp", "wl"}
@@ -89,7 +94,7 @@ def corpus(out, tier):
         end = e["end"]
         if end["class"] == "Panic" and end.get("pclass") == "Stuck":
             findings.append({"property": "C01", "kind": "stuck-corpus",
-                             "detail": "%s @ %s" % (end["panic"]["message"], end["panic"]["file"]),
+                             "detail": "%s @ %s [%s]" % (end["panic"]["message"], end["panic"]["file"], os.path.basename(e["file"]) if e["variant"] == "original" else "mutant of " + os.path.basename(e["file"])),
                              "file": e["file"], "variant": e["variant"], "stdin": e.get("stdin"),
                              "source": e.get("mutant_source")})
     require((rejected_at is not None) == bool(findings),
